@@ -60,8 +60,11 @@
                        two of them may reach the run loop in either order
      OrderedForward    FALSE = code: the run loop hands each configuration to a fresh goroutine
                        that offers it to the instance; two of them may be received in either order
-     LateDelivery      TRUE  = a ReloadConf goroutine that was never scheduled during Stop / Start
-                       may deliver into the next session's loop (both select branches are ready)
+     LateDelivery      TRUE = code: chReloadConf is one channel for all Start..Stop periods, and a ReloadConf
+                       goroutine that has not run its select yet when Stop and the next Start have happened
+                       finds both branches ready (the NEW run loop receives from chReloadConf, its own ctx
+                       is done): it may hand its OLD configuration to the next period's loop (X01-F4);
+                       FALSE = such a goroutine can only give up
    Layer 2 ("the statement") are state predicates / action properties over what is observable.  *)
 EXTENDS VerifCommon
 
